@@ -124,7 +124,10 @@ def build(cfg, workdir, perm_seed=None, perm_kinds=None):
             # the drawn delays are not part of the specification)
             from topsim.core.delay import DelayModel
             rd = cfg["realDelay"]
-            dm = DelayModel(rd["prob"], rd["dist"], DelayModel.DelayDegree[rd["degree"]], rd["seed"])
+            # one model object per parameter set serves every simulation of the
+            # process (the experiment loop of topsim's own documentation does so)
+            dm = _POLICIES.setdefault(("delay", rd["prob"], rd["dist"], rd["degree"], rd["seed"]),
+                                      DelayModel(rd["prob"], rd["dist"], DelayModel.DelayDegree[rd["degree"]], rd["seed"]))
         if dm is not None and not cfg["realDelay"].get("viaSim"):
             planning = S.HBatchPlanning(reg, dm)
         else:
